@@ -710,8 +710,8 @@ class P02(CodecPlan, SessionPlan):
     prop = "C02"
     mode = "spec"
     monitor = staticmethod(c02_live)
-    n_quick = 3000
-    n_thorough = 60000
+    n_quick = 8000
+    n_thorough = 300000
     rule = ("inputs = the C01 input space for protocol levels 3 and 4 compared byte for byte with the reference encoder, reference-encoded broker packets decoded by the library, "
             "unrepresentable inputs (over-long strings, out-of-range identifiers/keepalives, wrong payload types), and every packet written in seeded session walks re-derived from "
             "the API arguments (covers in-place DUP patching); distinct_nontrivial counts distinct inputs plus distinct session histories that wrote at least one packet")
